@@ -247,16 +247,37 @@ end
 section
 variable [Add α] [Neg α] [LT α] [DecidableLT α]
 
-/-- every `S(track, k)` has a length: the call is `estimate` on the items, whatever the container types -/
+/-- no value handed to `math.log` is outside its domain (in particular: the flag is set, or `logDom` is total) -/
+def NoDomainError (nm : Num α) (h : ObjS α) (tr : Trk α) (obs : List String) (log : Bool) (mode : Nat) : Prop :=
+  ∀ OBS, (List.range tr.size).mapM (fun k => getObsK nm tr obs k mode) = .ok OBS →
+    domainError nm { h.toObj with log := h.log || log } tr ((List.range tr.size).map (h.toObj.S tr)) OBS = false
+
+/-- every `S(track, k)` has a length and `math.log` is defined where it is called: the call is `estimate` on the items,
+whatever the container types -/
 theorem estimateS_sized (nm : Num α) (h : ObjS α) (tr : Trk α) (obs : List String) (log : Bool) (mode : Nat)
-    (hs : ∀ k, k < tr.size → (h.S tr k).isSized = true) :
+    (hs : ∀ k, k < tr.size → (h.S tr k).isSized = true) (hd : NoDomainError nm h tr obs log mode) :
     estimateS nm h tr obs log mode =
       ({ h with log := (estimate nm h.toObj tr obs log mode).1.log }, (estimate nm h.toObj tr obs log mode).2.1,
         (estimate nm h.toObj tr obs log mode).2.2) := by
   unfold estimateS
-  rw [if_pos]
-  simp only [List.all_eq_true, List.mem_range]
-  exact hs
+  rw [if_pos (by simp only [List.all_eq_true, List.mem_range]; exact hs)]
+  cases hobs : (List.range tr.size).mapM (fun k => getObsK nm tr obs k mode) with
+  | error e => simp
+  | ok OBS =>
+    have := hd OBS hobs
+    simp only [ObjS.toObj] at this ⊢
+    simp [this]
+
+/-- a value outside the domain of `math.log` among those that are converted: `ValueError`, flag or-ed, track untouched -/
+theorem estimateS_domain (nm : Num α) (h : ObjS α) (tr : Trk α) (obs : List String) (log : Bool) (mode : Nat)
+    (hs : ∀ k, k < tr.size → (h.S tr k).isSized = true) (hne : tr.size ≠ 0) (OBS : List (List (ObsItem α)))
+    (hobs : (List.range tr.size).mapM (fun k => getObsK nm tr obs k mode) = .ok OBS)
+    (hd : domainError nm { h.toObj with log := h.log || log } tr ((List.range tr.size).map (h.toObj.S tr)) OBS = true) :
+    estimateS nm h tr obs log mode = ({ h with log := h.log || log }, tr, some .value) := by
+  unfold estimateS
+  rw [if_pos (by simp only [List.all_eq_true, List.mem_range]; exact hs)]
+  simp only [ObjS.toObj] at hd ⊢
+  simp [hobs, hd, hne]
 
 /-- some `S(track, k)` has no length: `TypeError`, the flag is or-ed into the object, the track is untouched -/
 theorem estimateS_unsized (nm : Num α) (h : ObjS α) (tr : Trk α) (obs : List String) (log : Bool) (mode : Nat)
